@@ -159,6 +159,45 @@ Theorem C11_topup_generated :
 Proof. split; [exact gen_TopUp|exact model_sub_topup]. Qed.
 Print Assumptions C11_topup_generated.
 
+(* the four order-book hooks of x/subaccount/keeper/hooks.go (what the settlement of a participation books on the subaccount that made the
+   deposit) are generated on every run as functions on (account summary stored for the address / whether there is one / owner record /
+   the two bank balances; a panic is None) and are exactly the two steps of the model's hook_sub: nothing for an address without a
+   subaccount, else Unspend (and AddLoss for a loss) and, for a win, the guarded transfer of the profit to the owner.  They do not read any
+   parameter: a change of the module parameters between deposit and settlement cannot change them (C17, seed round 8) *)
+Theorem C11_hooks_generated : forall ex x own sb ob a c,
+  K_subhook_AfterHouseWin (hook_state ex x own sb ob) a c =
+    (if negb ex then Some (hook_state ex x own sb ob) else
+     match sub_unspend x a with
+     | None => None
+     | Some x' => if negb own then None else if sb <? c then None else Some (hook_state ex x' own (sb - c) (ob + c))
+     end) /\
+  K_subhook_AfterHouseLoss (hook_state ex x own sb ob) a c =
+    (if negb ex then Some (hook_state ex x own sb ob) else
+     match sub_unspend x a with
+     | None => None
+     | Some y => match sub_addloss y c with None => None | Some x' => Some (hook_state ex x' own sb ob) end
+     end) /\
+  K_subhook_AfterHouseRefund (hook_state ex x own sb ob) a =
+    (if negb ex then Some (hook_state ex x own sb ob) else
+     match sub_unspend x a with None => None | Some x' => Some (hook_state ex x' own sb ob) end) /\
+  K_subhook_AfterHouseFeeRefund (hook_state ex x own sb ob) a =
+    (if negb ex then Some (hook_state ex x own sb ob) else
+     match sub_unspend x a with None => None | Some x' => Some (hook_state ex x' own sb ob) end).
+Proof. intros. repeat split; [apply gen_AfterHouseWin|apply gen_AfterHouseLoss|apply gen_AfterHouseRefund|apply gen_AfterHouseFeeRefund]. Qed.
+Print Assumptions C11_hooks_generated.
+Theorem C11_hook_model_steps : forall b subs a f fwd,
+  (sub_by_addr subs a = None -> hook_sub b subs a f fwd = Some (b, subs)) /\
+  (forall x, sub_by_addr subs a = Some x ->
+     hook_sub b subs a f fwd =
+     match f x with
+     | None => None
+     | Some x' => if fwd =? 0 then Some (b, set_sub subs x')
+                  else if fwd <? 0 then None else if bget b a <? fwd then None
+                  else Some (badd (badd b a (- fwd)) (sa_owner x) fwd, set_sub subs x')
+     end).
+Proof. intros. split; [apply hook_sub_none|intros x E; apply hook_sub_found; exact E]. Qed.
+Print Assumptions C11_hook_model_steps.
+
 From Sge Require Import Model.Orderbook Proofs.SubExact.
 (* PARTIAL (the full clause "exactly equal when nobody sent it tokens directly" over all histories stays a per-run check): exactness —
    every registered subaccount's bank balance EQUALS deposited - withdrawn - spent - lost — is kept by every list of settlement effects made
